@@ -211,7 +211,7 @@ def _mk(stage: int, noise: int, naddr: int):
 def shards(tier: str) -> list:
     out = []
     quick = tier == "quick"
-    combos = [(st, 0, 1) for st in (E.ST_RESOLVING, E.ST_CONNECTING, E.ST_OPENED, E.ST_HELLO_SENT, E.ST_CONNECTED, E.ST_DISCONNECTING)]
+    combos = [(st, 0, 1) for st in (E.ST_RESOLVING, E.ST_RESOLVING_MDNS, E.ST_CONNECTING, E.ST_OPENED, E.ST_HELLO_SENT, E.ST_CONNECTED, E.ST_DISCONNECTING)]
     combos += [(E.ST_HELLO_SENT, 1, 1)]  # noise: finish parked on the handshake
     combos += [(E.ST_CONNECTING, 0, 2)]  # two address groups: the TCP connect may take 2 x 60 s
     alpha = ALPHA_Q if quick else ALPHA_FULL
